@@ -43,6 +43,15 @@ pub struct Workload {
     pub sched: Sched,
     pub sched_seed: u64,
     pub schedules: u16,
+    /// "gated" executions: no condition-variable timeout ever fires (lingering workers stay), the
+    /// first task - submitted by the controller - occupies a permanent worker until a gate opens, and
+    /// the controller opens the gate and shuts down only after every submitter has returned. Every
+    /// `submit` then depends on being woken when an auxiliary worker becomes available. Used only
+    /// when progress is certain on a correct pool: >= 1 permanent worker, lingering, no injected spawn
+    /// failure, and a submitter whose first call is `submit_or_spawn` (so that an auxiliary worker
+    /// comes into being whatever the others do).
+    #[serde(default)]
+    pub gated: bool,
 }
 
 fn call() -> impl Strategy<Value = Call> {
@@ -59,9 +68,10 @@ pub fn workload(schedules: u16) -> impl Strategy<Value = Workload> {
         prop::option::weighted(0.15, 0u8..8),
         prop_oneof![3 => Just(Sched::Random), 1 => (1u8..5).prop_map(Sched::Pct)],
         any::<u64>(),
+        prop::bool::weighted(0.4),
     )
         .prop_map(
-            move |(permanent, linger, submitters, pool_shutdown_after, group_shutdown_after, fail_spawn, sched, sched_seed)| Workload {
+            move |(permanent, linger, submitters, pool_shutdown_after, group_shutdown_after, fail_spawn, sched, sched_seed, gated)| Workload {
                 permanent,
                 linger,
                 submitters,
@@ -71,6 +81,7 @@ pub fn workload(schedules: u16) -> impl Strategy<Value = Workload> {
                 sched,
                 sched_seed,
                 schedules,
+                gated,
             },
         )
 }
@@ -173,6 +184,10 @@ fn oracle_fail(sig: &str, detail: &str) -> ! {
     panic!("ORACLE[{sig}]: {detail}");
 }
 
+fn is_gated(w: &Workload) -> bool {
+    w.gated && w.permanent >= 1 && w.linger && w.fail_spawn.is_none() && w.submitters.iter().any(|s| s.first().map_or(false, |c| c.spawn))
+}
+
 /// One execution (called by shuttle once per schedule).
 fn execution(w: &Workload, agg: &Arc<Mutex<Agg>>) {
     agg.lock().unwrap().started += 1;
@@ -182,7 +197,9 @@ fn execution(w: &Workload, agg: &Arc<Mutex<Agg>>) {
         let l = ledger.clone();
         vshim::exec::set_probe(Arc::new(move || l.in_flight.load(Ordering::SeqCst) > 0));
     }
-    let timer = vshim::exec::start_timer();
+    let gated = is_gated(w);
+    // without the timer thread no wait ever times out
+    let timer = if gated { None } else { Some(vshim::exec::start_timer()) };
 
     let group = ThreadGroup::new();
     let linger = if w.linger { Duration::from_secs(1) } else { Duration::ZERO };
@@ -192,6 +209,20 @@ fn execution(w: &Workload, agg: &Arc<Mutex<Agg>>) {
         Err(e) => oracle_fail("start-pool-failed", &format!("start_pool returned {e:?}")),
     };
 
+    // gated: the first task holds a permanent worker until the gate opens
+    let gate = Arc::new((shuttle::sync::Mutex::new(false), shuttle::sync::Condvar::new()));
+    if let (true, Some(pool)) = (gated, &pool) {
+        let g = gate.clone();
+        let r = pool.submit(move || {
+            let mut open = g.0.lock().unwrap();
+            while !*open {
+                open = g.1.wait(open).unwrap();
+            }
+        });
+        if r.is_err() {
+            oracle_fail("unexpected-error", "the gate task was rejected by a fresh pool");
+        }
+    }
     // call records are allocated up front so that indices are stable
     {
         let mut calls = ledger.calls.lock().unwrap();
@@ -251,7 +282,15 @@ fn execution(w: &Workload, agg: &Arc<Mutex<Agg>>) {
     }
 
     // the controller is this (the main) thread
-    if let (Some(n), Some(pool)) = (w.pool_shutdown_after, &pool) {
+    if gated {
+        // every submitter returns first (a `submit` that is never woken shows as a deadlock here)
+        for h in handles.drain(..) {
+            h.join().expect("submitter panicked");
+        }
+        *gate.0.lock().unwrap() = true;
+        gate.1.notify_all();
+    }
+    if let (Some(n), Some(pool), false) = (w.pool_shutdown_after, &pool, gated) {
         for _ in 0..n {
             shuttle::thread::yield_now();
         }
@@ -272,8 +311,10 @@ fn execution(w: &Workload, agg: &Arc<Mutex<Agg>>) {
     for h in handles {
         h.join().expect("submitter panicked");
     }
-    vshim::exec::stop_timer();
-    timer.join().expect("timer panicked");
+    if let Some(timer) = timer {
+        vshim::exec::stop_timer();
+        timer.join().expect("timer panicked");
+    }
 
     if pool.is_none() {
         // start_pool failed (injected): nothing was submitted
@@ -327,6 +368,9 @@ pub fn oracle(w: &Workload, st: &mut Stats) -> Verdict {
         Sched::Random => "workloads-random-scheduler",
         Sched::Pct(_) => "workloads-pct-scheduler",
     });
+    if is_gated(w) {
+        st.class("workloads-gated (no timeouts, shut-down only after every submitter returned)");
+    }
     if w.linger {
         st.class("workloads-lingering");
     }
